@@ -3,6 +3,8 @@ package main
 import (
 	"encoding/json"
 	"fmt"
+	"runtime"
+	"strings"
 	"time"
 
 	"github.com/fabiolb/fabio/config"
@@ -108,22 +110,65 @@ func (c *catalogSim) state() ([]catalogEntry, []*api.HealthCheck, int) {
 	return entries, passing, len(names)
 }
 
-// makeConfigTimed runs f (a call of the real makeConfig) and waits for it with a ceiling: makeConfig talks to an
-// in-process fake and normally answers within a millisecond; one that has not answered after blockLimit is
-// blocked (Watch would never send another update). After the first blocked call of a process the ceiling drops:
-// the tree is known to be broken, the first case is the one that is reported.
-var blockLimit = 5 * time.Second
+// makeConfigTimed runs f (a call of the real makeConfig) and decides, without a clock, whether it will ever come
+// back: makeConfig's collector waits on a channel for one result per service; when it is parked in that receive and
+// no worker goroutine (a function literal started by makeConfig) exists any more, nobody is left to send — the call
+// is blocked for good (Watch would never send another update). The goroutines of the process are inspected every
+// few milliseconds until f returns; a slow machine only makes the wait longer. Collectors leaked by earlier blocked
+// calls of this process stay parked and are counted off. The 120 s ceiling is the last resort for a call that
+// neither returns nor shows this picture.
+var leakedCollectors int
 
 func makeConfigTimed(f func() string) (text string, blocked bool) {
 	ch := make(chan string, 1)
 	go func() { ch <- f() }()
-	select {
-	case text = <-ch:
-		return text, false
-	case <-time.After(blockLimit):
-		blockLimit = 100 * time.Millisecond
-		return "", true
+	deadline := time.Now().Add(120 * time.Second)
+	wait := 5 * time.Millisecond
+	for {
+		select {
+		case text = <-ch:
+			return text, false
+		case <-time.After(wait):
+		}
+		if parked, workers := makeConfigGoroutines(); parked > leakedCollectors && workers == 0 {
+			// look twice: between the two looks nothing may have moved
+			time.Sleep(wait)
+			select {
+			case text = <-ch:
+				return text, false
+			default:
+			}
+			if p2, w2 := makeConfigGoroutines(); p2 > leakedCollectors && w2 == 0 {
+				leakedCollectors++
+				return "", true
+			}
+		}
+		if time.Now().After(deadline) {
+			leakedCollectors++
+			return "", true
+		}
+		if wait < 200*time.Millisecond {
+			wait *= 2
+		}
 	}
+}
+
+// makeConfigGoroutines counts the goroutines parked in a channel receive below ServiceMonitor.makeConfig (collectors
+// waiting for results) and the live goroutines running a function literal of makeConfig (workers).
+func makeConfigGoroutines() (parked, workers int) {
+	buf := make([]byte, 8<<20)
+	buf = buf[:runtime.Stack(buf, true)]
+	for _, g := range strings.Split(string(buf), "\n\n") {
+		switch {
+		case strings.Contains(g, ".makeConfig.func"):
+			workers++
+		case strings.Contains(g, ".(*ServiceMonitor).makeConfig("):
+			if nl := strings.IndexByte(g, '\n'); nl > 0 && strings.Contains(g[:nl], "[chan receive") {
+				parked++
+			}
+		}
+	}
+	return
 }
 
 func runHistory(raw json.RawMessage) (interface{}, error) {
